@@ -31,7 +31,8 @@ ASSUMPTIONS = [
     "pow bases are generated reference-positive; denominators are r, positive constants or 1+e^2",
 ]
 REQUIRED = {"mod:sum": 20, "mod:product": 20, "mod:pow": 10, "mod:trans": 20, "mod:spline": 10,
-            "custom_calls_custom": 8, "has_if": 8, "has_pymath": 8, "has_as_call": 8, "table_leaf": 10}
+            "custom_calls_custom": 8, "has_if": 8, "has_pymath": 8, "has_as_call": 8, "table_leaf": 10, "sibling:differs": 30, "api:shared_operand:sum": 8,
+            "api:shared_operand:product": 8}
 
 
 def _style():
@@ -55,9 +56,16 @@ def _case(draw, depth, feature=None):
             pd = {"ranges": [{"m": None, "s": None, "body": {
                 "k": "mod", "m": draw(st.sampled_from(["sum", "product"])), "args": [pd, leaf]}}]}
     rs = draw(st.lists(gen.fl(0.05, 30.0), min_size=4, max_size=7))
+    # a second entry of the same section that shares most of its text with the first one (the same modifier
+    # acting from another separation, a further range, ...): each entry means what ITS text says
+    sib = gen.vary(draw, pd, gen.potdef(0, customs, tables, max_ranges=1).map(lambda d: d["ranges"][0]["body"]))
+    for rg in pd["ranges"] + sib["ranges"]:
+        if rg["m"] is not None:
+            rs.extend([float(rg["s"]) + 0.125, float(rg["s"])])
+    rs = [r for r in rs if r > 0][:12]
     styles = [draw(_style()), draw(_style())]
     order = draw(st.lists(st.floats(0, 1), min_size=8, max_size=8))
-    return {"env": {"custom": customs, "table": tables}, "pd": pd, "rs": rs, "styles": styles, "order": order}
+    return {"env": {"custom": customs, "table": tables}, "pd": pd, "sibling": sib, "rs": rs, "styles": styles, "order": order}
 
 
 def strategy(tier):
@@ -192,6 +200,74 @@ def check_case(case):
         except Exception as e:
             v.append(("style:exception:%s@%s" % (type(e).__name__, libroute.innermost_atsim_frame(e)),
                       "style %r: %r\n%s" % (style, e, _models(case, style, None)[0])))
+    # (5) two entries of one section that share most of their text
+    sib = case.get("sibling")
+    if sib is not None and not v:
+        cls.append("sibling:" + ("same_text" if sib == pd else "differs"))
+        tc = render.model_text({"tabulation": {"target": "LAMMPS", "nr": 5, "cutoff": 2.0}, "env": env,
+                                "pair": [("Al", "Al", pd), ("Al", "Cu", sib), ("Cu", "Cu", pd)]})
+        try:
+            fc = libroute.functions(libroute.read_text(tc))
+            for label, d in (("pair:Al-Al", pd), ("pair:Al-Cu", sib), ("pair:Cu-Cu", pd)):
+                for r in case["rs"]:
+                    try:
+                        j, tr = model.evaluate(ref, d, r)
+                    except (DomainError, OverflowError):
+                        continue
+                    if abs(j.v) > 1e200 or any(t[0] == "ambiguous" for t in tr):
+                        continue
+                    got = libroute.realnum(fc[label](r))
+                    tol = 256 * EPS * j.c[0].e + 1e-300
+                    if got is None or not abs(got - j.v) <= tol:
+                        v.append(("sibling:value", "[%s] r=%r: got %r, its own definition gives %r (tol %.3g)\n%s" % (
+                            label, r, got, j.v, tol, tc)))
+                        break
+                if v:
+                    break
+        except Exception as e:
+            v.append(("sibling:exception:%s@%s" % (type(e).__name__, libroute.innermost_atsim_frame(e)), "%r\n%s" % (e, tc)))
+    # (6) Python API composition that keeps and re-uses an intermediate result
+    node = next((b for b in model.walk_simple(pd) if b["k"] == "mod" and b["m"] in ("sum", "product")), None)
+    if node is not None and not v:
+        import atsim.potentials as ap
+        cls.append("api:shared_operand:" + node["m"])
+        fn = {"sum": ap.plus, "product": ap.product}[node["m"]]
+        args = node["args"]
+
+        def wrap(body):
+            return {"ranges": [{"m": None, "s": None, "body": body}]}
+        pd1 = wrap({"k": "mod", "m": node["m"], "args": args[:2]})
+        pd2 = wrap({"k": "mod", "m": node["m"], "args": [pd1, args[-1]]})
+        pd3 = wrap({"k": "mod", "m": node["m"], "args": [args[0], pd1]})
+        try:
+            B = build_api.Builder(env)
+            fs = [B.potdef(a) for a in args]
+            p1 = fn(fs[0], fs[1])
+            before = [p1(r) for r in keep]
+            p2 = fn(p1, fs[-1])
+            p3 = fn(fs[0], p1)
+            for f, d, what in ((p1, pd1, "x = %s(a, b) evaluated after building %s(x, c) and %s(a, x)" % ((fn.__name__,) * 3)),
+                               (p2, pd2, "%s(%s(a, b), c)" % ((fn.__name__,) * 2)),
+                               (p3, pd3, "%s(a, %s(a, b))" % ((fn.__name__,) * 2))):
+                for r in keep:
+                    try:
+                        j, _ = model.evaluate(ref, d, r)
+                    except (DomainError, OverflowError):
+                        continue
+                    if abs(j.v) > 1e200:
+                        continue
+                    got = libroute.realnum(f(r))
+                    tol = 256 * EPS * j.c[0].e + 1e-300
+                    if got is None or not abs(got - j.v) <= tol:
+                        v.append(("api:shared_operand", "%s at r=%r: got %r, reference %r (tol %.3g); a, b, c = arguments "
+                                  "of the first %s() of\n%s" % (what, r, got, j.v, tol, node["m"], txts[0])))
+                        break
+                if v:
+                    break
+            if not v and [p1(r) for r in keep] != before:
+                v.append(("api:shared_operand", "x = %s(a, b) changed its values after being used as an operand\n%s" % (fn.__name__, txts[0])))
+        except Exception as e:
+            v.append(("api:shared:exception:%s@%s" % (type(e).__name__, libroute.innermost_atsim_frame(e)), "%r\n%s" % (e, txts[0])))
     # (3) Python API composition
     try:
         api = build_api.Builder(env).potdef(pd)
